@@ -367,6 +367,19 @@ func (e *Engine) clientHandshake(c *TLSConnV) any {
 	fail := func(msg string) any { return e.mkErr("tls: " + msg) }
 	advSt := structOf(c.advT)
 	cfg := deref(c.cfg)
+	// a peer whose answer is computed from the client's hello (harness callback, typically the real server-side code):
+	// Respond(offered protocols) (selected protocol, certificate chain, accepted)
+	if hasField(advSt, "Respond") {
+		if cl, ok := c.adv[fieldIdx(advSt, "Respond")].(Closure); ok && cl.fn != nil {
+			offered, _ := getF(cfg, tConfig, "NextProtos").(SliceV)
+			r := e.call(cl.fn, []any{offered}, cl.bind).(Tuple)
+			if !e.branch(r[2]) {
+				return fail("handshake failure (the server refused the hello)")
+			}
+			c.adv[fieldIdx(advSt, "Proto")] = r[0]
+			c.adv[fieldIdx(advSt, "Chain")] = r[1]
+		}
+	}
 	chain := c.adv[fieldIdx(advSt, "Chain")].(SliceV)
 	var peerCerts []any
 	for i := 0; i < chain.len; i++ {
